@@ -270,6 +270,35 @@ func main() {
 		})
 	}
 
+	// a face must not depend on what was asked of its family earlier: a style that is not loaded is requested, then a closer font is
+	// loaded, then the style is requested again; a family that had both fonts from the start must hand out the same face
+	describe := func(f *canvas.FontFace) string {
+		return fmt.Sprintf("%s style=%v fauxBold=%.4f fauxItalic=%.4f size=%.3f", f.Font.Name(), f.Style, f.FauxBold, f.FauxItalic, f.Size)
+	}
+	for k, want := range []canvas.FontStyle{canvas.FontBold, canvas.FontExtraBold, canvas.FontBold | canvas.FontItalic, canvas.FontLight} {
+		want := want
+		add(fmt.Sprintf("family-history-%d", k), func() []byte {
+			a := canvas.NewFontFamily("hist")
+			if err := a.LoadFont(fontBytes, 0, canvas.FontRegular); err != nil {
+				return []byte(err.Error())
+			}
+			first := describe(a.Face(10, canvas.Black, want, canvas.FontNormal))
+			if err := a.LoadFont(noname, 0, canvas.FontBold); err != nil {
+				return []byte(err.Error())
+			}
+			second := describe(a.Face(10, canvas.Black, want, canvas.FontNormal))
+			b := canvas.NewFontFamily("hist")
+			b.LoadFont(fontBytes, 0, canvas.FontRegular)
+			b.LoadFont(noname, 0, canvas.FontBold)
+			fresh := describe(b.Face(10, canvas.Black, want, canvas.FontNormal))
+			res := "first: " + first + " | after loading a bold font: " + second + " | fresh family with both: " + fresh
+			if second != fresh {
+				res = "HISTORY-MISMATCH " + res
+			}
+			return []byte(res)
+		})
+	}
+
 	hash := func(b []byte) string { h := sha256.Sum256(b); return hex.EncodeToString(h[:8]) }
 	// A: sequential, in order
 	A := make([][]byte, len(jobs))
@@ -319,7 +348,7 @@ func main() {
 	// again from many goroutines at once for a fixed wall time; every result must equal the one of phase A
 	var geo []int
 	for i, j := range jobs {
-		for _, pre := range []string{"and-", "xor-", "or-", "not-", "settle-", "stroke-", "offset-"} {
+		for _, pre := range []string{"and-", "xor-", "or-", "not-", "settle-", "stroke-", "offset-", "text-", "family-history-"} {
 			if strings.HasPrefix(j.Name, pre) {
 				geo = append(geo, i)
 			}
@@ -362,6 +391,9 @@ func main() {
 		}
 		if bytes.HasPrefix(A[i], []byte("PANIC")) {
 			panics++
+		}
+		if bytes.HasPrefix(A[i], []byte("HISTORY-MISMATCH")) {
+			mism = append(mism, mm{j.Name, "same-call-after-other-calls-on-the-same-family", trunc(A[i]), ""})
 		}
 		if !bytes.Equal(A[i], B[i]) {
 			a, b := diffCtx(A[i], B[i])
